@@ -127,10 +127,19 @@ type ins struct {
 
 func main() {
 	out := flag.String("out", "", "output directory")
+	goOnly := flag.String("goonly", "", "comma-separated files that only get a scheduling point at the top of every `go func() {...}()` literal")
 	flag.Parse()
+	goOnlySet := map[string]bool{}
+	files := flag.Args()
+	for _, g := range strings.Split(*goOnly, ",") {
+		if g != "" {
+			goOnlySet[g] = true
+			files = append(files, g)
+		}
+	}
 	overlay := map[string]string{}
 	total := 0
-	for i, path := range flag.Args() {
+	for i, path := range files {
 		src, err := os.ReadFile(path)
 		if err != nil {
 			fmt.Fprintln(os.Stderr, err)
@@ -186,6 +195,20 @@ func main() {
 			}
 		}
 		ast.Inspect(f, func(n ast.Node) bool {
+			// a goroutine started from a function literal parks before it does anything
+			// (a change that starts a new goroutine would otherwise run outside the
+			// simulator's control: the kernel names goroutines at "*.start" points)
+			if g, ok := n.(*ast.GoStmt); ok {
+				if fl, ok := g.Call.Fun.(*ast.FuncLit); ok && fl.Body != nil {
+					if len(fl.Body.List) == 0 || !(isVhookCall(fl.Body.List[0]) && exprsOnlyShallow(fl.Body.List[0])) {
+						pos := fset.Position(fl.Body.Lbrace)
+						list = append(list, ins{off: pos.Offset + 1, text: fmt.Sprintf(" vhook.Yield(\"auto:go:%s:%d.start\", 0); ", base, pos.Line)})
+					}
+				}
+			}
+			if goOnlySet[path] {
+				return true
+			}
 			switch t := n.(type) {
 			case *ast.BlockStmt:
 				visit(t.List)
